@@ -19,7 +19,8 @@ Theorems about `Model/Gossip.lean` (the model of `Service::handle_announcement`,
 * `never_echoed` ("a relayed announcement is never written to a peer that delivered it") is **false** of the
   current code: `never_echoed_counterexample` (a peer that delivers a *duplicate* of a stored inventory
   announcement is not recorded as relayer — the `FIXME` in `handle_announcement` — and gets it back on the
-  gossip tick) and `never_echoed_after_prune_counterexample` (`relayed_by` is keyed by rowid; a pruned and
+  gossip tick), `never_echoed_ignored_delivery_counterexample` (a delivery ignored because the announcer was
+  unknown at the time is not recorded either) and `never_echoed_after_prune_counterexample` (`relayed_by` is keyed by rowid; a pruned and
   re-stored announcement gets another rowid). What holds: `relay_skips_recorded` (`Service::relay` never
   writes to a peer recorded in `relayed_by` for that row), `accepted_delivery_recorded` (a delivery that
   stores the announcement records the deliverer under the row's id), `relayedBy_monotone` (records are
@@ -1042,6 +1043,21 @@ theorem never_echoed_counterexample :
     (step (finalState (init 1000000 true) echoTrace.dropLast) (.elapse 6000)).2.writes.any
       (fun w => w.origin == .relay && w.peer == 2 && w.id == ⟨3, .inv, 0, 1000005⟩) = true :=
   ⟨rfl, by decide⟩
+
+/-- The same root cause with an *ignored* delivery: peer 1 delivers `X` while its announcer is not in the
+address book (`Ok(None)`, nobody recorded); the announcer becomes known; peer 2 delivers `X` (stored); on
+the gossip tick `X` is relayed to peer 1. -/
+def ignoredEchoTrace : List Op :=
+  [.connect 1, .connect 2,
+   .recv 1 ⟨⟨3, .inv, 0, 1000005⟩, true, [1], false, false⟩,
+   .knowNode 3 999990,
+   .recv 2 ⟨⟨3, .inv, 0, 1000005⟩, true, [1], false, false⟩,
+   .elapse 6000]
+
+theorem never_echoed_ignored_delivery_counterexample :
+    (step (finalState (init 1000000 true) ignoredEchoTrace.dropLast) (.elapse 6000)).2.writes.any
+      (fun w => w.origin == .relay && w.peer == 1 && w.id == ⟨3, .inv, 0, 1000005⟩) = true := by
+  decide
 
 /-- A second way to the same failure: the row a recorded deliverer filled is pruned (`prune` deletes rows
 older than `gossip_max_age`; any old timestamp is accepted) and the announcement is stored again under
